@@ -11,6 +11,7 @@ INVARIANT NonNegative
 INVARIANT SumToOne
 INVARIANT AtLeastOneModel
 INVARIANT BayesRule
+INVARIANT ResetOnlyOnTrueUnderflow
 INVARIANT ModeMixValid
 INVARIANT MixtureMoments
 INVARIANT SpreadForm
